@@ -32,7 +32,11 @@ import (
 )
 
 type OpD struct {
-	Kind string `json:"kind"` // write task checkin
+	Kind string `json:"kind"` // write task checkin burst
+	// burst: N writes of Size bytes each, every one awaited into the queue as its own relay
+	// task (the same real path as "write"), with a check-in after every Step of them (0: none)
+	N    int `json:"n,omitempty"`
+	Step int `json:"step,omitempty"`
 	Size int    `json:"size,omitempty"`
 	Off  int    `json:"off,omitempty"`
 	Cmd  uint32 `json:"cmd,omitempty"`
@@ -74,6 +78,23 @@ func genD(t *rapid.T) CaseD {
 		c.Ops = append(c.Ops, op)
 	}
 	c.Close = []string{"none", "fin", "rst", "none"}[agentfx.Bits(t, "close", 2)]
+	// SCALE (1 case in 60): a burst of a threshold-adjacent number of relay packets is put
+	// before / between / after the operations above
+	if agentfx.Weighted(t, "scale", 59, 1) == 1 {
+		op := OpD{Kind: "burst", N: genScale(t, "burst", 2049, 8193), Size: rapid.IntRange(1, 16).Draw(t, "size"), Off: rapid.IntRange(0, 4096).Draw(t, "off")}
+		if agentfx.Weighted(t, "burstcheckins", 2, 1) == 1 {
+			op.Step = []int{1, 2, 3, 16, 100, 1000, 1023, 1024}[agentfx.Bits(t, "step", 3)]
+		}
+		ins := []OpD{op}
+		// a burst that stays queued is followed (1 of 2) by an operator task of a large size
+		// class: the reply that takes the burst meets the size decisions
+		if op.Step == 0 && rapid.Bool().Draw(t, "burstthenbig") {
+			sz := []int{1 << 20, Limit - 70000, Limit - 8, Limit + 1}[agentfx.Bits(t, "bigsize", 2)]
+			ins = append(ins, OpD{Kind: "task", Cmd: rapid.SampledFrom(rawBigA).Draw(t, "cmd"), Size: sz, Off: rapid.IntRange(0, 4096).Draw(t, "off"), Tag: rapid.Bool().Draw(t, "tag")})
+		}
+		at := rapid.IntRange(0, len(c.Ops)).Draw(t, "burstat")
+		c.Ops = append(c.Ops[:at:at], append(ins, c.Ops[at:]...)...)
+	}
 	return c
 }
 
@@ -105,6 +126,8 @@ type obsD struct {
 	maxRun, maxQueued int // most relay writes between two check-ins; most tasks queued at a check-in
 	mixed             bool
 	skipped           string
+	// scale: relay writes of the client, check-ins, most tasks in one reply (/ that left a remainder)
+	writes, checkins, maxBatch, maxCutBatch int
 }
 
 var (
@@ -226,21 +249,51 @@ func checkD(c CaseD) *core.Violation {
 
 	// ---- the history
 	run := 0
+	var o obsA
+	defer func() {
+		lastD.checkins, lastD.maxBatch, lastD.maxCutBatch = o.checkins, o.maxBatch, o.maxCutBatch
+	}()
+	// write: the client writes one piece, which is awaited into the queue as its own relay task
+	write := func(i int, data []byte) string {
+		before := queueLen(a)
+		if _, err := conn.Write(data); err != nil {
+			return "client-write-failed"
+		}
+		if !waitQueueAbove(a, before) {
+			return "relay-task-not-queued"
+		}
+		m.q = append(m.q, &entry{kind: eStream, content: data, op: i})
+		lastD.writes++
+		run++
+		if run > lastD.maxRun {
+			lastD.maxRun = run
+		}
+		return ""
+	}
 	for i, op := range c.Ops {
 		switch op.Kind {
 		case "write":
-			data := buf[op.Off : op.Off+op.Size]
-			before := queueLen(a)
-			if _, err := conn.Write(data); err != nil {
-				return skipD("client-write-failed")
+			if why := write(i, buf[op.Off:op.Off+op.Size]); why != "" {
+				return skipD(why)
 			}
-			if !waitQueueAbove(a, before) {
-				return skipD("relay-task-not-queued")
-			}
-			m.q = append(m.q, &entry{kind: eStream, content: data, op: i})
-			run++
-			if run > lastD.maxRun {
-				lastD.maxRun = run
+		case "burst":
+			size := 1 + (op.Size-1)&0xff
+			for j := 0; j < op.N; j++ {
+				off := op.Off + (j*13)%50021
+				if why := write(i, buf[off:off+size]); why != "" {
+					return skipD(why)
+				}
+				if op.Step > 0 && (j+1)%op.Step == 0 {
+					if q := m.queuedAtLeast(); q > lastD.maxQueued {
+						lastD.maxQueued = q
+					}
+					bi, v := w.checkIn("d", 0, true)
+					if v != nil {
+						return v
+					}
+					o.note(bi)
+					run = 0
+				}
 			}
 		case "task":
 			var data []interface{}
@@ -262,9 +315,11 @@ func checkD(c CaseD) *core.Violation {
 			if q := m.queuedAtLeast(); q > lastD.maxQueued {
 				lastD.maxQueued = q
 			}
-			if _, v := w.checkIn("d", 0, true); v != nil {
+			bi, v := w.checkIn("d", 0, true)
+			if v != nil {
 				return v
 			}
+			o.note(bi)
 			run = 0
 		}
 	}
@@ -287,7 +342,6 @@ func checkD(c CaseD) *core.Violation {
 		pre = binary.LittleEndian.AppendUint32(pre, m.sock)
 		m.q = append(m.q, &entry{kind: eExact, cmd: agent.COMMAND_SOCKET, req: 0, pre: pre, pure: 8, op: len(c.Ops)})
 	}
-	var o obsA
 	return w.drainObs("d", &o)
 }
 
@@ -312,8 +366,17 @@ func classifyD(c CaseD) core.Class {
 	if o.mixed {
 		cl.Labels = append(cl.Labels, "operator-task-between-relay-writes")
 	}
+	cl.Labels = append(cl.Labels, scaleLabel("relay-packets-of-one-client", o.writes)...)
+	cl.Labels = append(cl.Labels, scaleLabel("relay-packets-between-check-ins", o.maxRun)...)
+	cl.Labels = append(cl.Labels, scaleLabel("queued-jobs-at-a-check-in", o.maxQueued)...)
+	cl.Labels = append(cl.Labels, scaleLabel("jobs-in-one-reply", o.maxBatch)...)
+	cl.Labels = append(cl.Labels, scaleLabel("jobs-in-one-reply-leaving-a-remainder", o.maxCutBatch)...)
+	cl.Labels = append(cl.Labels, scaleLabel("check-ins-per-history", o.checkins)...)
 	cl.NonTrivial = o.maxQueued >= 2
 	cl.Fingerprint = fmt.Sprintf("run=%s|q=%s|mixed=%v|close=%s", runL, bucket(o.maxQueued), o.mixed, c.Close)
+	if sw, sb, sc := scaleBucket(o.writes), scaleBucket(o.maxBatch), scaleBucket(o.maxCutBatch); sw+sb+sc != "" {
+		cl.Fingerprint += "|scale=" + sw + "/" + sb + "/" + sc
+	}
 	return cl
 }
 
@@ -321,7 +384,7 @@ func TestC04d(t *testing.T) {
 	big()
 	core.Run(t, core.Spec[CaseD]{
 		Property: "C04", Sub: "d",
-		Rule: "one agent with a SOCKS5 proxy started by the real operator command (socks add <free loopback port>); a real TCP client does the no-auth greeting and CONNECT to a generated IPv4 target; the harness plays the agent (connect task fetched at a check-in, connect-success callback with the next one); then 1-16 operations: the client writes a piece of 1-1400 generated bytes (awaited into the queue as its own relay task: the harness waits until the queue grew), an operator-path task, a check-in; optionally the client closes (FIN or RST) and the resulting close task is awaited; the queue is drained. Oracle: the (a) oracle over what the agent receives, where relay write tasks must carry, in order, exactly the bytes the client wrote (compared at hand-out) under the socket id the connect task announced. Non-trivial: a check-in saw >=2 queued tasks; distinct = (relay writes between two check-ins 0/1/2/3+, max queued bucket, operator task between relay writes, how the client ended)",
+		Rule: "one agent with a SOCKS5 proxy started by the real operator command (socks add <free loopback port>); a real TCP client does the no-auth greeting and CONNECT to a generated IPv4 target; the harness plays the agent (connect task fetched at a check-in, connect-success callback with the next one); then 1-16 operations: the client writes a piece of 1-1400 generated bytes (awaited into the queue as its own relay task: the harness waits until the queue grew), an operator-path task, a check-in; optionally the client closes (FIN or RST) and the resulting close task is awaited; the queue is drained. Oracle: the (a) oracle over what the agent receives, where relay write tasks must carry, in order, exactly the bytes the client wrote (compared at hand-out) under the socket id the connect task announced. Non-trivial: a check-in saw >=2 queued tasks; distinct = (relay writes between two check-ins 0/1/2/3+, max queued bucket, operator task between relay writes, how the client ended). SCALE (1 case in 60): a burst of N relay packets of 1-16 bytes, N from the threshold-adjacent pool {63,64,65, 127..129, 255..257, 511..513, 999..1001, 1023..1025, 2047..2049} (cut at 2049 in the quick tier - every packet is a real TCP write awaited into the queue, about 0.1-0.5 ms each; thorough: up to 8193), placed before / between / after the ordinary operations, either left queued (then, in 1 of 2, followed by one operator task of 1 MiB / limit-70000 / limit-8 / limit+1 bytes so that the reply taking the burst meets the size cut) or with a check-in after every 1/2/3/16/100/1000/1023/1024 packets; same oracle; labels scale:<count>:<bucket> for packets, queued jobs, jobs in one reply (with / without a remainder) and check-ins",
 		Gen:  genD, Check: checkD, Classify: classifyD,
 		Assumptions: []string{
 			"a case in which the fixture cannot be established within 20 s (no free port, greeting / connect reply / relay task not appearing) is counted as skipped (evidence extra skipped_cases_d), never as a violation: whether the relay reacts at all is C15's property",
